@@ -182,18 +182,28 @@ def redefine(m, rng):
     """replace, in the live object, one explicitly named sub-proposition over leaves by another definition over the same leaves with the same id
     (the idiom the configurator's Xor uses itself: parent.propositions[i] = ...). Returns a description or None when the model has no such node."""
     import puan.logic.plog as pg
-    cands, stack, seen = [], [m], set()
+    cands, stack, seen, seen_objs = [], [m], set(), []
     while stack:
         n = stack.pop()
         if id(n) in seen:
             continue
         seen.add(id(n))
+        seen_objs.append(n)
         for i, c in enumerate(n.propositions):
             if adapters.is_leaf(c):
                 continue
             stack.append(c)
             if not c.generated_id and len(c.propositions) >= 2 and all(adapters.is_leaf(x) for x in c.propositions):
                 cands.append((n, i, c))
+    if rng.random() < 0.35:
+        # another in-place edit: a further leaf is appended to the children of some sub-proposition (its threshold stays): "all of n" becomes
+        # "n of n+1" for evaluation and validation alike, and the conversion is about the object as it is now
+        comps = [x for x in seen_objs if not adapters.is_leaf(x) and len(x.propositions) >= 1]
+        if comps:
+            tgt = rng.choice(comps)
+            tgt.propositions.append(puan.variable("zz9"))
+            tgt.propositions.sort()
+            return {"node": tgt.id, "appended": "zz9", "value": int(tgt.value), "children_now": len(tgt.propositions)}
     if not cands:
         return None
     n, i, c = rng.choice(cands)
